@@ -583,7 +583,37 @@ def _describe_failure(gen, unit, d):
                 site=site, rendered=d.get('rendered', '')[:3000])
 
 
-def build_and_verify(unit, root, canary=False, rlimit=None, keep_name=None):
+def _missing_consts(unit, root, res):
+    """names rustc could not find (E0425) that are module-level consts of a source file the unit extracts from -> Copy items for them.
+    A change that introduces a new constant next to a function under contract is then verified WITH the constant instead of ending undecided."""
+    names = set()
+    for d in res.get('diags', []):
+        for m in re.finditer(r'cannot find value `([A-Z][A-Z0-9_]*)`', d.get('message', '') + ' ' + str(d.get('rendered', ''))):
+            names.add(m.group(1))
+    if not names:
+        return []
+    files = []
+
+    def walk(items):
+        for it in items:
+            if isinstance(it, Group):
+                walk(it.items)
+            elif isinstance(it, (Fn, Lifted)) and it.file not in files:
+                files.append(it.file)
+    walk(unit.items)
+    out = []
+    for n in sorted(names):
+        for f in files:
+            try:
+                X.Source(root, f).find_item(r'(?m)^(?:pub(?:\([a-z]+\))? )?const %s\s*:' % re.escape(n))
+            except X.ExtractError:
+                continue
+            out.append(Copy(f, r'(?m)^(?:pub(?:\([a-z]+\))? )?const %s\s*:' % re.escape(n), make_pub=True))
+            break
+    return out
+
+
+def build_and_verify(unit, root, canary=False, rlimit=None, keep_name=None, _retry=True):
     os.makedirs(BUILD, exist_ok=True)
     gen = generate(unit, root, canary=canary)
     text = '\n'.join(gen.lines) + '\n'
@@ -618,6 +648,11 @@ def build_and_verify(unit, root, canary=False, rlimit=None, keep_name=None):
         try:
             res = json.load(open(cache))
             res['cached'] = True
+            if _retry and res.get('summary', {}).get('verification-results', {}).get('encountered-error') and not res.get('summary', {}).get('verification-results', {}).get('encountered-vir-error'):
+                extra = _missing_consts(unit, root, res)
+                if extra:
+                    unit.items = extra + list(unit.items)
+                    return build_and_verify(unit, root, canary=canary, rlimit=rlimit, keep_name=keep_name, _retry=False)
             return gen, res, path
         except Exception:
             pass
@@ -626,6 +661,11 @@ def build_and_verify(unit, root, canary=False, rlimit=None, keep_name=None):
         # slow query: one retry with a larger resource limit before giving up as undecided (never an alarm)
         res = run_verus(path, rlimit=60)
         res['retried_with_rlimit'] = 60
+    if _retry and res.get('summary', {}).get('verification-results', {}).get('encountered-error') and not res.get('summary', {}).get('verification-results', {}).get('encountered-vir-error'):
+        extra = _missing_consts(unit, root, res)
+        if extra:
+            unit.items = extra + list(unit.items)
+            return build_and_verify(unit, root, canary=canary, rlimit=rlimit, keep_name=keep_name, _retry=False)
     res['cached'] = False
     res['sha_generated'] = h
     if res.get('status') != 'tool-error':
